@@ -11,6 +11,9 @@ import CanvasProofs.Lemmas.C03Real
 import CanvasProofs.Lemmas.C03Spec
 import CanvasProofs.Lemmas.C03XMono
 import CanvasProofs.Lemmas.C03Arc
+import CanvasProofs.Lemmas.C03CubicDev
+import CanvasProofs.Lemmas.C03CubicWhole
+import CanvasProofs.Lemmas.C03CubicStepK
 import Mathlib.Tactic.Ring
 import Mathlib.Tactic.Linarith
 import Mathlib.Tactic.NormNum
@@ -234,6 +237,61 @@ example : StepOK (1 : ℚ) (Pt.mk 0 0) (Pt.mk 30 40) (Pt.mk 1 0) (2500 / 4970) :
   ⟨50, by simp only [dd, Point.Dot, Point.Sub]; norm_num,
     by simp only [s2nom, Point.Sub, Point.PerpDot]; norm_num,
     by simp only [dd, turnDot, Point.Dot, Point.Sub]; norm_num⟩
+
+/-! ## 3c. the cubic flattener: `cubicBezierDeviation` is a rigorous bound, every piece within 4·tol -/
+
+/-- HULL BOUND (no square roots): if the inner control points of a cubic are within D of points of its
+chord segment, every point B(s), 0 ≤ s ≤ 1, is within 3/4·D of a point of the chord segment — the curve is
+a convex combination of its control points with weight at most 3/4 on the inner ones. -/
+theorem cubic_hull_bound (p0 p1 p2 p3 : Pt K) (l1 l2 D s : K)
+    (hl1 : 0 ≤ l1 ∧ l1 ≤ 1) (hl2 : 0 ≤ l2 ∧ l2 ≤ 1) (hD : 0 ≤ D)
+    (h1 : dsq p1 (segPt p0 p3 l1) ≤ D * D) (h2 : dsq p2 (segPt p0 p3 l2) ≤ D * D)
+    (hs0 : 0 ≤ s) (hs1 : s ≤ 1) :
+    ∃ m : K, 0 ≤ m ∧ m ≤ 1 ∧ dsq (cubicBezierPos p0 p1 p2 p3 s) (segPt p0 p3 m) ≤ (3 / 4 * D) * (3 / 4 * D) :=
+  cubic_near_chord p0 p1 p2 p3 l1 l2 D s hl1 hl2 hD h1 h2 hs0 hs1
+
+/-- `cubicBezierDeviation(p0,p1,p2,p3, 0)` over K (`devK`: the three-case distance to the chord segment with
+`Env.hypot`, times 3/4) bounds the distance of EVERY point of the cubic from its chord segment. -/
+theorem cubic_within_deviation_of_chord (hs : SqrtOK K) (c : Cub K) (s : K) (hs0 : 0 ≤ s) (hs1 : s ≤ 1) :
+    ∃ m : K, 0 ≤ m ∧ m ≤ 1 ∧ dsq (cubPos c s) (segPt c.p0 c.p3 m) ≤ devK c * devK c :=
+  cubic_within_devK hs c s hs0 hs1
+
+/-- WHOLE LOOP of `flattenSmoothCubicBezier` (d = 0), any step function that only returns steps whose cut-off
+piece passed the flatness test (the exit condition of the halving loop) and that stops only on a flat rest:
+cut parameters strictly increase in (0,1); every piece [T_k, T_k+1] of the ORIGINAL curve, and the rest up
+to 1, is within r of the segment between its end points; the emitted vertices are a sublist of the piece
+end points followed by p3 (pieces `addCubicBezierLine` calls degenerate add no vertex); at most `fuel`
+vertices. All cubics, all tolerances. -/
+theorem flatten_cubic_every_piece_within (r : K) (step : Cub K → CStep K) (keep : Cub K → Bool)
+    (hcut : ∀ q t, step q = .cut t → 0 < t ∧ t < 1 ∧ PieceFlat r (cubSplitLK q t))
+    (hstop : ∀ q, step q = .stop → PieceFlat r q)
+    (hstraight : ∀ q, step q = .straight → PieceFlat r q)
+    (fuel : Nat) (p : Cub K) (vs : List (Pt K))
+    (h : flattenCubicLoop step keep cubSplitR fuel p = some vs) :
+    ∃ Ts : List K, Ts.Pairwise (· < ·) ∧ (∀ T ∈ Ts, 0 < T ∧ T < 1) ∧ cubChainOK r p 0 Ts
+      ∧ vs.Sublist (Ts.map (cubPos p) ++ [p.p3]) ∧ vs.length ≤ fuel :=
+  cub_loop_within r step keep hcut hstop hstraight p fuel p 0 vs (le_refl 0) zero_lt_one rfl
+    (fun s => by congr 1; ring) h
+
+/-- With the step of the repaired code (`cubStepK`: ANY positive first estimate, clipped to 1, halved while
+`4·tol < cubicBezierDeviation(left piece)`), every piece is within 4·tol of its chord — provided the halving
+loop is always left by that test and not by its cap of 20 iterations (`hexit`; the cap is the only way the
+code can emit a chord that failed the test). -/
+theorem flatten_cubic_within_four_tol (hs : SqrtOK K) (tol : K) (eqp : Pt K → Pt K → Bool) (est : Cub K → K)
+    (keep : Cub K → Bool) (heq : ∀ a b, eqp a b = true → a = b) (hest : ∀ q, 0 < est q)
+    (hexit : ∀ q, devK (cubSplitLK q (halveK tol q 20 (min (est q) 1))) ≤ 4 * tol)
+    (fuel : Nat) (p : Cub K) (vs : List (Pt K))
+    (h : flattenCubicLoop (cubStepK tol eqp est) keep cubSplitR fuel p = some vs) :
+    ∃ Ts : List K, Ts.Pairwise (· < ·) ∧ (∀ T ∈ Ts, 0 < T ∧ T < 1) ∧ cubChainOK (4 * tol) p 0 Ts
+      ∧ vs.Sublist (Ts.map (cubPos p) ++ [p.p3]) ∧ vs.length ≤ fuel :=
+  flatten_cubic_every_piece_within (4 * tol) (cubStepK tol eqp est) keep
+    (cubStepK_ok hs tol eqp est heq hest hexit).1 (cubStepK_ok hs tol eqp est heq hest hexit).2.1
+    (cubStepK_ok hs tol eqp est heq hest hexit).2.2 fuel p vs h
+
+/-- non-vacuity of the hull bound: `M0 0C0 4 4 4 4 0` — inner control points 4 above the chord, D = 4 -/
+example : dsq (Pt.mk (0 : ℚ) 4) (segPt (Pt.mk 0 0) (Pt.mk 4 0) 0) ≤ 4 * 4
+    ∧ dsq (Pt.mk (4 : ℚ) 4) (segPt (Pt.mk 0 0) (Pt.mk 4 0) 1) ≤ 4 * 4 := by
+  simp only [dsq, segPt]; norm_num
 
 /-! ## 4. the `replace` driver keeps the subpath structure -/
 
